@@ -76,6 +76,7 @@ fn gen_i32(c: &mut Ctx) -> i32 {
 }
 
 pub fn run(c: &mut Ctx) {
+    crate::aliases::c06(c);
     // ---- new: all boundary pairs -------------------------------------------------------------
     let secs_b: Vec<i64> = {
         let mut v = vec![0, 1, -1, i64::MAX, i64::MIN, i64::MAX - 1, i64::MIN + 1];
